@@ -7,7 +7,8 @@ import (
 
 // R31i: "… makes Run return … with an error". A blocked read that the cancellation cuts short fails like any read, and
 // its status can be swallowed by the construct around it (`while read …`, `if read …`), so the interpreter cannot rely
-// on the status alone: in Run, every path from the execution of the node to a `return nil` consults ctx.Err().
+// on the status alone: in Run, every path from the execution of the node — and from anything else in Run that can
+// run code of the program, such as the exit trap, whose own result is discarded — to a `return nil` consults ctx.Err().
 func checkRunReportsCancel(p *Prog, r *Result, rule string) {
 	pkg := p.Pkg("interp")
 	info := pkg.TypesInfo
@@ -47,13 +48,33 @@ func checkRunReportsCancel(p *Prog, r *Result, rule string) {
 		return ok && len(rs.Results) == 1 && !isNilIdent(info, rs.Results[0])
 	}
 	g := NewFGraph(info, fd.Body, nil)
+	// whatever can run code of the program: the statement executors and everything that reaches them (the exit trap)
 	execs := map[string]bool{"stmts": true, "stmt": true, "cmd": true}
+	rg := buildRefGraph(p)
+	var cores []*types.Func
+	for _, nm := range []string{"Runner.stmt", "Runner.cmd"} {
+		if f := lookupFunc(pkg, nm); f != nil {
+			cores = append(cores, f)
+		}
+	}
+	runsCode := func(fn *types.Func) bool {
+		if execs[fn.Name()] {
+			return true
+		}
+		reach := rg.reachable(fn.Origin())
+		for _, c := range cores {
+			if reach[c] {
+				return true
+			}
+		}
+		return false
+	}
 	n := 0
 	for _, b := range g.Blocks {
 		for i, nd := range b.Nodes {
 			for _, c := range nodeCalls(nd) {
 				callee := calleeOf(info, c)
-				if callee == nil || !execs[callee.Name()] || callee.Type().(*types.Signature).Recv() == nil {
+				if callee == nil || callee.Type().(*types.Signature).Recv() == nil || !runsCode(callee) {
 					continue
 				}
 				n++
